@@ -122,7 +122,8 @@ func TransformModuleFilesToModel( //nolint:funlen,gocognit,cyclop
 				}
 			} else {
 				transformErrors = multierror.Append(transformErrors, &ModuleTransformationSingleError{
-					Msg: "file is not a module",
+					Msg:  "file is not a module",
+					File: module.Name,
 				})
 				continue
 			}
@@ -138,6 +139,15 @@ func TransformModuleFilesToModel( //nolint:funlen,gocognit,cyclop
 					File:   module.Name,
 					Line:   line,
 					Column: col,
+				})
+
+				continue
+			}
+
+			if condition.GetMetadata() == nil {
+				transformErrors = multierror.Append(transformErrors, &ModuleTransformationSingleError{
+					Msg:  "file is not a module",
+					File: module.Name,
 				})
 
 				continue
